@@ -135,6 +135,43 @@ func c09(c *Ctx) {
 	c.everyMessageDispatched("R09.I")
 	r.Rule("R09.U", "the table key is unique among the requests in flight: the id a request is registered under comes from the clock at 4 ns resolution (formula evaluated, = C10 R10.C) and is drawn under the send lock - a coarser id lets two callers share one entry, and the second registration replaces the first", 1)
 	c.msgIDFormula("R09.U")
+	r.Rule("R09.W", "a result that travels gzip_packed inside rpc_result is delivered unwrapped: the value handed to writeRPCResponse in the rpc_result arm is the result's Obj or, behind a successful assertion to *GzipPacked, that wrapper's Obj", 1)
+	if pr := c.P.Func(load.RootMod, "*MTProto", "processResponse"); pr != nil {
+		n := 0
+		for _, cs := range an.Calls(pr) {
+			if !strings.HasSuffix(cs.Name, "MTProto).writeRPCResponse") {
+				continue
+			}
+			args := an.CallArgs(cs.Common)
+			if len(args) < 3 {
+				continue
+			}
+			n++
+			v := args[2]
+			unwraps := false
+			var walk func(x ssa.Value, d int)
+			walk = func(x ssa.Value, d int) {
+				if d > 6 {
+					return
+				}
+				switch y := x.(type) {
+				case *ssa.Phi:
+					for _, e := range y.Edges {
+						walk(e, d+1)
+					}
+				case *ssa.UnOp:
+					if fa, ok := y.X.(*ssa.FieldAddr); ok && strings.HasSuffix(an.FieldName(fa.X.Type(), fa.Field), "objects.GzipPacked.Obj") {
+						unwraps = true
+					}
+				}
+			}
+			walk(v, 0)
+			r.Check(unwraps, "R09.W", sprintf("result:unwrapped-from-gzip#%d", n), c.pos(cs.Pos()), "one of the values delivered is the Obj of a *GzipPacked found in the result: a packed result (object, Bool, rpc_error) reaches its caller as what it is; delivered: "+simplifyOrigin(an.NewTracer().OriginString(v)))
+		}
+		if n == 0 {
+			r.Undecide("R09.W", "result:unwrapped-from-gzip", c.pos(pr.Pos()), "no writeRPCResponse call in processResponse")
+		}
+	}
 	r.Rule("R09.F", "an entry leaves the response table only when its waiter has been served or told to retry: Delete on the table is called from writeRPCResponse and processResponse only (a cleanup that evicts the oldest keys evicts the callers that have waited longest)", 1)
 	{
 		allowed := map[string]bool{"writeRPCResponse": true, "processResponse": true}
